@@ -650,8 +650,14 @@ class Net:
             self.nodes.append(ent)
         run_until(0.0)
 
+    FRAME_CAP = 6000      # datagrams per script item; honest items stay below ~1500 (20 s of 1 s renewals)
+
     def _frame(self, li, pdu):
         s, d = pdu.pduSource, pdu.pduDestination
+        if len(self.frame_times) > self.FRAME_CAP:
+            # a forwarding loop: stop at once instead of waiting for the task watchdog
+            _TM[0].tasks[:] = []
+            raise Watchdog('more than %d datagrams in one script item' % self.FRAME_CAP)
         self.log.append((None, [2, li, ip_int(s[0]), s[1], ip_int(d[0]), d[1]] + frame_canon(pdu.pduData)))
         self.frame_times.append((ms(NOW[0]), self.log[-1][1]))
 
@@ -1334,37 +1340,59 @@ def scen_unlisted(rng, stats):
     return bk.failures
 
 
+def _guard(fn, failures, stats, what, layout=None):
+    """run one scenario; a forwarding loop (watchdog) is a failing input of the termination kind"""
+    try:
+        failures += fn()
+    except Watchdog as e:
+        stats['watchdog'] += 1
+        failures.append({'kind': 'forwarding-loop', 'scenario': what, 'layout': layout, 'detail': str(e)})
+
+
 def direct(rng, tier, focus=()):
-    import collections
+    import collections, time
     stats = collections.Counter()
     failures = []
     nontriv = 0
     big = tier == 'thorough'
+    t_start = time.time()
+    budget = 900 if big else 150          # seconds; only ever reached on a broken tree
+
+    def late():
+        if time.time() - t_start > budget or len(failures) > 3000:
+            stats['cut-short'] += 1
+            return True
+        return False
     for k in range(400 if big else 60):
         layout = gen_layout(rng, wf=True)
         if layout['style'] == 'mixed':
             consistent_mixed(layout, rng)
-        fs = scen_sweep(rng, layout, stats)
-        failures += fs
+        if late():
+            break
+        _guard(lambda: scen_sweep(rng, layout, stats), failures, stats, 'sweep', layout)
         stats['layouts'] += 1
         stats['style-' + layout['style']] += 1
     for k in range(100 if big else 15):     # partial tables: no duplicates, no echo, true source only
+        if late():
+            break
         layout = gen_layout(rng, wf=True, partial=True)
-        failures += scen_sweep(rng, layout, stats)
+        _guard(lambda: scen_sweep(rng, layout, stats), failures, stats, 'sweep-partial', layout)
         stats['layouts-partial'] += 1
     for k in range(300 if big else 50):
         layout = gen_layout(rng, wf=True, max_sub=3)
         if layout['style'] == 'mixed':
             consistent_mixed(layout, rng)
-        failures += scen_lifecycle(rng, layout, stats)
+        if late():
+            break
+        _guard(lambda: scen_lifecycle(rng, layout, stats), failures, stats, 'lifecycle', layout)
         stats['lifecycles'] += 1
     for ttl in ([1, 2, 3, 5, 10, 30, 60] if big else [1, 2, 5, 30]):
-        failures += scen_renewal(rng, stats, ttl)
+        _guard(lambda: scen_renewal(rng, stats, ttl), failures, stats, 'renewal')
         stats['renewal-runs'] += 1
-    failures += scen_unlisted(rng, stats)
-    for d in focus:
-        if isinstance(d, dict) and d.get('layer') == 'net' and d['layout'].get('wf'):
-            failures += scen_sweep(rng, d['layout'], stats)
+    _guard(lambda: scen_unlisted(rng, stats), failures, stats, 'unlisted')
+    for d in list(focus)[:10]:
+        if isinstance(d, dict) and d.get('layer') == 'net' and d['layout'].get('wf') and not late():
+            _guard(lambda: scen_sweep(rng, d['layout'], stats), failures, stats, 'focus', d['layout'])
     ev = stats['broadcasts'] + stats['renewal-runs']
     return failures, {'evaluations': ev, 'distinct_nontrivial': stats['broadcasts'], 'exhaustive': False,
                       'histogram': dict(stats),
